@@ -292,6 +292,15 @@ impl Ord for Key {
         match self.labels.len() {
             0 => cmp::Ordering::Equal,
             1 => self.labels[0].cmp(&other.labels[0]),
+            2 => {
+                // Order the two labels by (key, value), as `key_hasher_impl` does, so that two labels
+                // with the same key compare equal exactly when `eq` says so.
+                let (a0, a1) = if self.labels[0] <= self.labels[1] { (0, 1) } else { (1, 0) };
+                let (b0, b1) = if other.labels[0] <= other.labels[1] { (0, 1) } else { (1, 0) };
+                self.labels[a0]
+                    .cmp(&other.labels[b0])
+                    .then_with(|| self.labels[a1].cmp(&other.labels[b1]))
+            }
             n if n < 8 => {
                 let mut labels_sort_map: [u8; 8] = [0, 1, 2, 3, 4, 5, 6, 7];
                 labels_sort_map[..n].sort_by_key(|i| self.labels[*i as usize].key());
